@@ -36,4 +36,6 @@ package secondary
 //@ method (*withSecondaryError).SafeDetails
 //@   props C03 C12 C07
 //@   ensures[C03] safeSeq(result)
+//@   ensures[C12] result == errbase.foldSD(self.secondaryError, nil)
 //@   loop 1: invariant[C03] safeSeq(details)
+//@           invariant[C12] errbase.foldSD(err, details) == errbase.foldSD(self.secondaryError, nil)
